@@ -231,6 +231,13 @@ def conformance(rep: Report, ctx, pid: str, classes: dict[str, int]):
     rep.extra.setdefault("verdict_classes", {}).update(counts)
     rep.extra["traces_with_3plus_generations"] = nontrivial
     rep.extra["trace_events"] = sum(len(t) for t in traces)
+    # how often each event (= action of the trace spec) was exercised by the real code: an action with count 0 was never bound
+    _cnt = {}
+    for _t in traces:
+        for _e in _t:
+            _cnt[_e["e"]] = _cnt.get(_e["e"], 0) + 1
+    for _k, _v in _cnt.items():
+        rep.extra.setdefault("trace_action_counts", {})[_k] = rep.extra.get("trace_action_counts", {}).get(_k, 0) + _v
     rep.extra["evaluations"] = len(traces)
     rep.extra["distinct_nontrivial"] = nontrivial
     ok = [(s, t) for s, t, v in zip(scs, traces, ver) if v["accepted"]]
